@@ -363,6 +363,9 @@ pub enum Policy {
     Sequential,
     /// round robin over enabled threads
     RoundRobin,
+    /// C12: run the other threads for `after` steps (randomly), then run `reader` alone until it
+    /// finishes; it must never be disabled while it runs alone
+    Solo { reader: usize, after: usize },
 }
 
 pub struct RunOutcome {
@@ -371,6 +374,10 @@ pub struct RunOutcome {
     pub steps: usize,
     pub schedule: Vec<usize>,
     pub blocked: Vec<(usize, String)>,
+    /// Solo policy: own steps the reader needed while everybody else was suspended
+    pub solo_steps: Option<usize>,
+    /// Solo policy: the reader was not enabled although it ran alone
+    pub solo_blocked: Option<String>,
 }
 
 /// drive all workers to completion under a policy
@@ -388,10 +395,13 @@ pub fn drive(s: &Arc<Sched>, policy: &Policy, rng: &mut crate::types::Rng, budge
     let mut schedule = vec![];
     let mut rr = 0usize;
     let mut fair_phase = false;
+    let mut solo_steps: Option<usize> = None;
+    let mut solo_blocked: Option<String> = None;
+    let mut solo_done = false;
     loop {
         let unfinished = s.unfinished();
         if unfinished.is_empty() {
-            return RunOutcome { deadlock: false, budget_exceeded: false, steps, schedule, blocked: vec![] };
+            return RunOutcome { deadlock: false, budget_exceeded: false, steps, schedule, blocked: vec![], solo_steps, solo_blocked };
         }
         let en = s.enabled_set();
         if en.is_empty() {
@@ -399,7 +409,7 @@ pub fn drive(s: &Arc<Sched>, policy: &Policy, rng: &mut crate::types::Rng, budge
                 .iter()
                 .map(|t| (*t, s.pending_of(*t).map(|p| format!("{:?} {} at {}:{}", p.kind, p.what, p.file, p.line)).unwrap_or_default()))
                 .collect();
-            return RunOutcome { deadlock: true, budget_exceeded: false, steps, schedule, blocked };
+            return RunOutcome { deadlock: true, budget_exceeded: false, steps, schedule, blocked, solo_steps, solo_blocked };
         }
         if steps >= budget && !matches!(policy, Policy::RoundRobin | Policy::Random) && !fair_phase {
             // priority schedules are unfair by design: finish under a fair policy before
@@ -411,12 +421,32 @@ pub fn drive(s: &Arc<Sched>, policy: &Policy, rng: &mut crate::types::Rng, budge
                 .iter()
                 .map(|t| (*t, s.pending_of(*t).map(|p| format!("{:?} {} at {}:{}", p.kind, p.what, p.file, p.line)).unwrap_or_default()))
                 .collect();
-            return RunOutcome { deadlock: false, budget_exceeded: true, steps, schedule, blocked };
+            return RunOutcome { deadlock: false, budget_exceeded: true, steps, schedule, blocked, solo_steps, solo_blocked };
         }
         let pick = if fair_phase {
             rr += 1;
             en[rr % en.len()]
         } else { match policy {
+            Policy::Solo { reader, after } => {
+                let others: Vec<usize> = en.iter().copied().filter(|t| t != reader).collect();
+                let reader_unfinished = unfinished.contains(reader);
+                if !solo_done && reader_unfinished && (steps >= *after || others.is_empty()) {
+                    // the reader runs alone from here
+                    if en.contains(reader) {
+                        solo_steps = Some(solo_steps.unwrap_or(0) + 1);
+                        *reader
+                    } else {
+                        solo_blocked = Some(s.pending_of(*reader).map(|p| format!("{:?} {} at {}:{}", p.kind, p.what, p.file, p.line)).unwrap_or_default());
+                        solo_done = true;
+                        others[rng.below(others.len() as u64) as usize]
+                    }
+                } else {
+                    if !reader_unfinished {
+                        solo_done = true;
+                    }
+                    if others.is_empty() { en[0] } else { others[rng.below(others.len() as u64) as usize] }
+                }
+            }
             Policy::Random => en[rng.below(en.len() as u64) as usize],
             Policy::Sequential => en[0],
             Policy::RoundRobin => {
